@@ -679,6 +679,7 @@ private:
             const ranked_key_type key = Encoder::rank_of_int(key_extract_(x));
             assert(key >= mins_[first_non_empty]);
             assert(first_non_empty == mins_.size() - 1 ||
+                   buckets_data_[first_non_empty + 1].empty() ||
                    key < mins_[first_non_empty + 1]);
             const auto idx = bucket_map_(key, insertion_limit_);
             assert(idx < first_non_empty);
